@@ -13,7 +13,7 @@ BOUNDS = {
     'quick': 'edges: arguments into subbuild/build_file callee; value returned by subbuild/build_file fresh and served from '
              'cache, at root level and inside a caching parent; list_dir and walk (top-down and bottom-up) results; one container object occurring several times '
              'inside the arguments or the returned value; in-place mutations append / pop / '
-             'clear / nested set-item / nested append on a value [i, [j], {"k": [m]}] with symbolic integer leaves; histories of '
+             'clear / nested set-item / nested append on a value [i, [j], {"k": [m]}] (for returned values also {"a": [j], "i": i, "k": {"n": [m]}}) with symbolic integer leaves; histories of '
              '3 builds (unchanged rebuilds) and B.B.M.B for query results (tree of in/, in/x, in/y symbolic)',
     'thorough': 'same edges with two nested levels and 4 builds',
 }
@@ -34,7 +34,32 @@ def families(tier):
 
 
 def do_mut(v, how, x):
-    """An in-place mutation of a JSON container (list at top level)."""
+    """An in-place mutation of a JSON container (list or dict at top level)."""
+    if isinstance(v, dict):
+        vals = list(v.values())
+        if how == 'append':
+            v['new'] = x
+        elif how == 'pop':
+            if v:
+                v.pop(sorted(v)[0])
+        elif how == 'clear':
+            v.clear()
+        elif how == 'nested-append':
+            for e in vals:
+                if isinstance(e, list):
+                    e.append(x)
+                    return
+            v['new'] = x
+        else:
+            for e in vals:
+                if isinstance(e, dict):
+                    e['z'] = x
+                    return
+            for e in vals:
+                if isinstance(e, list) and e:
+                    e[0] = x
+                    return
+        return
     if how == 'append':
         v.append(x)
     elif how == 'pop':
@@ -72,7 +97,13 @@ def harness(eng, fam, P):
     eng.path_info.update({'edge': fam, 'mutation': how})
     calls = []
 
+    # the returned value is a list or (ret-* edges) a dict at top level, with nested containers either way
+    as_dict = bool(eng.choose('top_dict', 2)) if fam.startswith('ret-') else False
+    eng.path_info['top_level'] = 'dict' if as_dict else 'list'
+
     def pristine():
+        if as_dict:
+            return {'a': [j], 'i': i, 'k': {'n': [m]}}
         return [i, [j], {'k': [m]}]
 
     def twice():
